@@ -134,8 +134,9 @@ CHECKS["C05"] = dict(
           "IntervalSage recomputes iff forced or ordinal % interval_length = 0, over exactly the last min(#stored, storage_length) "
           "observations (via C07 on the regenerated window kernel), otherwise returns the previous values (no callback occurs in that "
           "branch), seen = number of calls. Tied to batch.py/interval.py by exact-arithmetic correspondence; additionally (soft tie) "
-          "BatchSage.explain_many is translated statement by statement on every run and Props/GenBatch.lean proves it equal to an effectful "
-          "model whose successful runs return the pure batchSage these theorems are about."),
+          "BatchSage.explain_many, IntervalSage.explain_one and _get_mean_model_output are translated statement by statement on every run and "
+          "Props/GenBatch.lean, GenInterval.lean, GenMeanOutput.lean prove them equal to (an effectful model whose successful runs return) the pure "
+          "batchSage / intervalStep / meanOutput these theorems are about, incl. that a call which is not due invokes no callback."),
     design_ref="DESIGN.md section 6, C05", note=TRUST_H + " names must be non-empty; original mode needs the names to cover the model's features.",
     technique="Lean 4 theorems over hand model (+ regenerated window kernel) + differential correspondence",
 )
